@@ -615,7 +615,7 @@ def matchVals (p : Program) : Nat → Env → Log → Val → List Expr → Res 
   | n + 1, env, log, v, pe :: rest => match bindingOf pe with
     | Option.some (w, _) => if isWrap w v then .val true log else matchVals p n env log v rest
     | Option.none => match evalExpr p n env log pe with
-      | .val lit l => if lit.beq v then .val true l else matchVals p n env l v rest
+      | .val lit l => if v.beq lit then .val true l else matchVals p n env l v rest
       | .ret x l => .ret x l
       | .exit r l => .exit r l
       | .ffiErr l => .ffiErr l
